@@ -64,6 +64,15 @@ def native_search():
                     key = "3" if len(parts) == 2 else parts[2]
                 tgt[key] = "@@"
                 blobs.append(json.dumps({"1": rec}).replace("\"@@\"", wv).encode())
+        # keys of the objects (top level, children, values): digits int() rejects, signs, padding, floats, empty - a valid record under each
+        for key in ["\u00b2", "\u2460", "\u0661", " 1", "1 ", "+1", "-1", "1.0", "1e0", "", "gateway", "0x1", "1_0", "\u0967\u0968"]:
+            blobs.append(json.dumps({key: node}).encode())
+            rec = json.loads(json.dumps(node))
+            rec["children"] = {key: rec["children"]["3"]}
+            blobs.append(json.dumps({"1": rec}).encode())
+            rec = json.loads(json.dumps(node))
+            rec["children"]["3"]["values"] = {key: "20"}
+            blobs.append(json.dumps({"1": rec}).encode())
         valid = CONTENTS[-3].encode()
         blobs += [valid[:i] for i in range(0, len(valid), 7)]
         for b in blobs:
